@@ -178,9 +178,15 @@ Effects(nd, m, src, rep) ==
 Oversize(m) == m.len > 1500
 \* the recorded finding: a get_peers reply that is too long only because of its `values`
 KnownOversize(m) == m.y = "r" /\ Has(m, "r") /\ m.r.nvalues > 0 /\ m.len - m.r.vlen <= 1500
-FitsOK(m, ln) ==
+\* ... and whose values are legitimate: the peers the store is entitled to return (C07's statement).  A reply that is too long
+\* because it carries peers that should not be there any more is a different failure and is reported.
+LegitValues(nd, m) ==
+    (nd.step.open /\ nd.step.kind = "incoming" /\ nd.step.m.y = "q" /\ Has(nd.step.m, "q") /\ nd.step.m.q = "get_peers"
+     /\ Has(nd.step.m, "a") /\ nd.step.m.a.ihl = 20)
+        => ValuesOK(nd, nd.step.m.a.ih, nd.step.src, m.r.values)
+FitsOK(nd, m, ln) ==
     IF ~Oversize(m) THEN TRUE
-    ELSE IF KnownOversize(m) THEN PrintT(<<"KNOWNFINDING", "C17", "get_peers-reply-values", m.len, m.r.nvalues, ln>>)
+    ELSE IF KnownOversize(m) /\ LegitValues(nd, m) THEN PrintT(<<"KNOWNFINDING", "C17", "get_peers-reply-values", m.len, m.r.nvalues, ln>>)
     ELSE Chk("C17", "datagram-at-most-1500-bytes", ln, FALSE)
 
 \* ------------------------------------------------------------------ lookups (C02 C03 C04 C16 C19)
@@ -424,7 +430,7 @@ SendStep(e) ==
         aid == m.pfx
         islk == isq /\ aid \in DOMAIN nd.lk
         lk == nd.lk[aid] IN
-    /\ FitsOK(m, l)
+    /\ FitsOK(nd, m, l)
     /\ Chk("C05", "read-only-node-never-replies", l, nd.ro => ~IsReply(m))
     /\ Chk("C05", "replies-only-inside-the-step-of-a-query", l,
            IsReply(m) => (inStep /\ nd.step.kind = "incoming" /\ ~NotAQuery(nd.step.m)))
